@@ -668,7 +668,7 @@ fn build_scenario(c: &CaseD, upto: usize) -> Scenario {
                     arp: false, // added by `extra` with its SubnetInfo
                     udp: true,
                     routes: vec![Route { addr: h.ip, mask_len: 32, slot: 0, mac: None }],
-                    apps: vec![AppSpec { n: 0, script }],
+                    apps: vec![AppSpec { n: 0, script, ..Default::default() }],
                     ..Default::default()
                 });
             }
